@@ -239,6 +239,8 @@ func init() {
 			// a repeat at distance <= DictCap can only be found if the encoder dictionary really has
 			// the configured capacity (newEncoderDict(dictCap, bufSize, ...), not swapped)
 			ruleEncoderDictArgs(c, r, "")
+			ruleFilterWriterDict(c, r, "")
+			ruleBlockFilters(c, r, "")
 		},
 	})
 }
